@@ -1,10 +1,5 @@
 //! gbcheck <Cxx> [--tier quick|thorough] [--replay file]
-mod checks;
-mod engine;
-mod mach;
-mod prog;
-mod refmach;
-mod rom;
+use gbcheck::{checks, engine};
 
 use engine::Tier;
 
